@@ -9,6 +9,7 @@ Good(ev) ==
           /\ \/ ev.op = "Setup"      /\ Setup
              \/ ev.op = "Reserve"    /\ Reserve(a.k)
              \/ ev.op = "AppendBig"  /\ AppendBig(a.k)
+             \/ ev.op = "SeekAppend" /\ SeekAppend(a.g, a.k)
              \/ ev.op = "AddMembers" /\ AddMembers(a.n)
              \/ ev.op = "Fields"     /\ Fields(a.n)
              \/ ev.op = "Order"      /\ Order(a.size, a.order)
